@@ -289,12 +289,18 @@ print(json.dumps({"orders": orders, "obs": out}))
 """
 
 
+def pyflags(seed):
+    """'every process' includes interpreters started with optimisation flags (assert statements and docstrings are
+    stripped under -O / -OO): two of every seven processes of the seed cover run that way"""
+    return {3: ["-O"], 5: ["-OO"]}.get(seed % 7, [])
+
+
 def _seed_run(task):
     d, seed, verif = task
     env = dict(os.environ)
     env["PYTHONHASHSEED"] = str(seed)
     cw = cwds(d)
-    r = subprocess.run([sys.executable, "-c", WORKER % {"verif": verif, "d": d, "cwd": cw[seed % len(cw)], "seed": seed}], capture_output=True, text=True, env=env)
+    r = subprocess.run([sys.executable] + pyflags(seed) + ["-c", WORKER % {"verif": verif, "d": d, "cwd": cw[seed % len(cw)], "seed": seed}], capture_output=True, text=True, env=env)
     if r.returncode != 0:
         raise RuntimeError("seed worker %d failed: %s" % (seed, r.stderr[-400:]))
     return json.loads(r.stdout.strip().split("\n")[-1])
@@ -354,7 +360,8 @@ def run(ctx):
             (o0, s0), (o1, s1) = list(outs.items())[:2]
             # which of the two things that vary between the processes does the difference follow?
             by_cwd = all(len({runs[s]["obs"][k] for s in seeds if s % ncw == c}) <= 1 for c in range(ncw))
-            Vs.add("C19/working-directory-dependent" if by_cwd else "C19/hash-seed-dependent", {"script": k, "text": M.get(k, k), "seeds": [s0[0], s1[0]]},
+            by_flag = all(len({runs[s]["obs"][k] for s in seeds if pyflags(s) == fl}) <= 1 for fl in ([], ["-O"], ["-OO"]))
+            Vs.add("C19/working-directory-dependent" if by_cwd else "C19/interpreter-flag-dependent" if by_flag else "C19/hash-seed-dependent", {"script": k, "text": M.get(k, k), "seeds": [s0[0], s1[0]]},
                    "script %s: processes with PYTHONHASHSEED=%d (cwd #%d) and %d (cwd #%d) give different observations: %s" % (k, s0[0], s0[0] % ncw, s1[0], s1[0] % ncw, _first_diff(o0, o1).replace(d, "<D>")))
         if k.startswith("file:"):
             o = runs[ref_seed]["obs"][k]
